@@ -219,6 +219,7 @@ pub struct Node {
     pub calls: u64,
 }
 
+#[derive(Clone)]
 pub struct Machine {
     pub cfg: Cfg,
     pub init: Vec<Event>,
@@ -316,6 +317,16 @@ fn case_json(prop: &str, m: &Machine, idx: &[u8]) -> Value {
 
 /// Stateless mode: every event sequence of length 1..=depth (no merging).
 pub fn stateless(run: &mut crate::engine::Run, prop: &'static str, name: &str, m: &Machine, depth: usize, filter: &Filter) -> u64 {
+    // environment choice "one shared receive buffer" (default) at full depth, and
+    // "every packet in its own allocation" one level shallower
+    let n = stateless_mode(run, prop, name, m, depth, filter, true);
+    if depth >= 2 {
+        stateless_mode(run, prop, &format!("{} [distinct receive buffers]", name), m, depth - 1, filter, false);
+    }
+    n
+}
+
+fn stateless_mode(run: &mut crate::engine::Run, prop: &'static str, name: &str, m: &Machine, depth: usize, filter: &Filter, shared_rx: bool) -> u64 {
     let a = m.alphabet.len() as u64;
     let mut total = 0u64;
     for d in 1..=depth {
@@ -325,6 +336,7 @@ pub fn stateless(run: &mut crate::engine::Run, prop: &'static str, name: &str, m
     run.sweep_chunked(&format!("{}: all sequences of length 1..={} over {} events", name, depth, a), total, |acc, lo, hi| {
         let owned = Owned::new(&m.cfg);
         let mut idx: Vec<u8> = Vec::with_capacity(depth);
+        subject::set_rx_shared(shared_rx);
         for i in lo..hi {
             // index -> (length, digits)
             let mut r = i;
@@ -357,9 +369,14 @@ pub fn stateless(run: &mut crate::engine::Run, prop: &'static str, name: &str, m
             }
             let hist_ev = m.history(&idx);
             for df in node.diffs.iter().filter(|df| filter(df, &hist_ev)) {
-                acc.violation(len as u64, "history", format!("after {} event(s): {}", len, df.text), || case_json(prop, m, &idx));
+                acc.violation(len as u64, "history", format!("after {} event(s): {}", len, df.text), || {
+                    let mut c = case_json(prop, m, &idx);
+                    c["shared_rx"] = json!(shared_rx);
+                    c
+                });
             }
         }
+        subject::set_rx_shared(true);
     });
     total
 }
@@ -400,6 +417,7 @@ pub fn event_kind(ev: &Event) -> &'static str {
         Event::SetEidReq(_) => "set_eid(request half)",
         Event::SetEidResp(_) => "set_eid(response half)",
         Event::GetLength(_) => "get_length",
+        Event::Encode { .. } => "encode",
     }
 }
 
@@ -516,7 +534,9 @@ pub fn replay_history(case: &Value) -> Result<(Vec<Diff>, Event, String), String
     let m = Machine { cfg, init, alphabet: history.clone() };
     let idx: Vec<u8> = (0..history.len() as u8).collect();
     let owned = Owned::new(&m.cfg);
+    subject::set_rx_shared(case["shared_rx"].as_bool().unwrap_or(true));
     let node = m.eval(&owned, &probes(&m.cfg), &idx);
+    subject::set_rx_shared(true);
     let observed = format!("last step {:?}; eids {:?}; probes {}", node.last_obs, node.eids, hex(&node.probe_answers));
     Ok((node.diffs, history.last().unwrap().clone(), observed))
 }
@@ -535,4 +555,77 @@ pub fn replay_pair(case: &Value) -> Result<(bool, String), String> {
     let n2 = m2.eval(&owned, &pk, &(0..h2.len() as u8).collect::<Vec<_>>());
     let same = n1.last_obs == n2.last_obs && n1.probe_answers == n2.probe_answers;
     Ok((same, format!("{:?} / {:?} ; probes {} / {}", n1.last_obs, n2.last_obs, hex(&n1.probe_answers), hex(&n2.probe_answers))))
+}
+
+// ---------------------------------------------------------------------------
+// Cross-check engine: the same machine as a stateright::Model
+// ---------------------------------------------------------------------------
+
+#[derive(Clone, Debug)]
+pub struct SrState {
+    hist: Vec<u8>,
+    key: u64,
+    agrees: bool,
+}
+impl PartialEq for SrState {
+    fn eq(&self, o: &Self) -> bool {
+        self.key == o.key
+    }
+}
+impl Eq for SrState {}
+impl std::hash::Hash for SrState {
+    fn hash<H: std::hash::Hasher>(&self, h: &mut H) {
+        self.key.hash(h)
+    }
+}
+
+struct SrModel {
+    m: Machine,
+    probe_pkts: Vec<Vec<u8>>,
+}
+
+impl stateright::Model for SrModel {
+    type State = SrState;
+    type Action = u8;
+    fn init_states(&self) -> Vec<SrState> {
+        crate::trap::install();
+        let owned = Owned::new(&self.m.cfg);
+        let n = self.m.eval(&owned, &self.probe_pkts, &[]);
+        vec![SrState { hist: vec![], key: n.key, agrees: true }]
+    }
+    fn actions(&self, _s: &SrState, actions: &mut Vec<u8>) {
+        actions.extend(0..self.m.alphabet.len() as u8);
+    }
+    fn next_state(&self, last: &SrState, a: u8) -> Option<SrState> {
+        crate::trap::install();
+        let owned = Owned::new(&self.m.cfg);
+        let mut hist = last.hist.clone();
+        hist.push(a);
+        let n = self.m.eval(&owned, &self.probe_pkts, &hist);
+        Some(SrState { hist, key: n.key, agrees: true })
+    }
+    fn properties(&self) -> Vec<stateright::Property<Self>> {
+        vec![stateright::Property::<Self>::always("reached", |_, s| s.agrees)]
+    }
+}
+
+/// Run the machine under stateright's BFS and compare the number of unique
+/// states with the hand-rolled engine's.  A disagreement is a machinery
+/// failure (exit 2), never a verdict.
+pub fn crosscheck_stateright(run: &mut crate::engine::Run, name: &str, m: &Machine, st: &ExploreStats) {
+    use stateright::{Checker, Model};
+    let model = SrModel { m: m.clone(), probe_pkts: probes(&m.cfg) };
+    let checker = model.checker().threads(run.threads.min(8)).spawn_bfs().join();
+    let uniq = checker.unique_state_count() as u64;
+    let gen = checker.state_count() as u64;
+    let depth = checker.max_depth() as u64;
+    let mut cur = run.extra.get("stateright_crosscheck").cloned().unwrap_or_else(|| json!([]));
+    cur.as_array_mut().unwrap().push(json!({
+        "machine": name, "stateright_unique_states": uniq, "stateright_states_generated": gen, "stateright_max_depth": depth,
+        "engine_states": st.bfs_states, "engine_max_depth": st.bfs_max_depth, "agree": uniq == st.bfs_states,
+    }));
+    run.extra.insert("stateright_crosscheck".into(), cur);
+    if uniq != st.bfs_states {
+        run.machinery_errors.push(format!("{}: stateright found {} unique states, the BFS engine {}", name, uniq, st.bfs_states));
+    }
 }
